@@ -195,7 +195,7 @@ N('nb_eip712_nonconforming_values_refused', TD, 'TypedData value conformance', {
   'native: all 32 widths x 8 range boundaries x uintN/intN x number/decimal/hex/float spellings; bytesN N-1,N,N+1 for N=1..32; fixed arrays size-1,size,size+1 (size 0..3, also nested); 16 JSON kinds x 12 type kinds; missing/undeclared members (also for member-less structs); each offending value also nested inside a struct inside an array (about 3700 documents)')
 N('nb_domain_types_enumerated', TD, 'TypedDataBlob::verify_domain_type / compute', {'C20': Q},
   'exactly the 31 well-formed EIP712Domain types are accepted (and hash to the reference value); every other sequence, any type substitution, and a missing domain type are refused',
-  'native: all 9331 member sequences of length 0..=5 over the five standard names + one foreign name; 14 type substitutions at every position of each of the 31 well-formed domains; missing EIP712Domain (10452 documents)')
+  'native: all 9331 member sequences of length 0..=5 over the five standard names + one foreign name; 14 type substitutions at every position of each of the 31 well-formed domains; up to 12 near-miss spellings of each standard name (letter case, padding, NUL, plural, truncation, combining mark, homoglyph) at every position of each of the 31; missing EIP712Domain (about 11300 documents)')
 N('nb_member_kind_grammar', TD, 'MemberKind::{from_str, Display}', {'C08': Q, 'C17': Q},
   'member type strings parse to the kind the reference grammar assigns and print back unchanged; 64 array suffixes do not overflow the stack',
   'native: 11 base words + 11 non-ASCII names (Unicode numerics, digits after multi-byte characters) + bytes0..40 + uint/int 0..300 + 13 non-canonical spellings (uint08, uint+8 …) with array-suffix combinations up to depth 3 over 8 size spellings (about 600000 strings) + one depth-64 string')
